@@ -167,6 +167,8 @@ def digest(path):
 def run(ctx):
     violations, samples = [], []
     cov = {}
+    # all per-property binaries in one cargo invocation (parallel); bin_for() is then a no-op check
+    ctx["build_harness"]()
     hits = hidden_state_scan(ctx["repo"])
     cov["hidden_state_scan_hits"] = hits
     if hits:
